@@ -42,6 +42,8 @@ func main() {
 				}
 			}
 		}
+	case "selftest":
+		os.Exit(cmdSelftest())
 	case "axioms":
 		os.Exit(cmdAxioms())
 	default:
@@ -175,3 +177,75 @@ func shortFile(s string) string {
 
 
 var _ = ssa.InstantiateGenerics
+
+// cmdSelftest runs the semantics conformance suite (/verif/semtest): ok* functions must verify completely,
+// bad* functions (and "leaky") must have an obligation that is refuted or at least not discharged.
+func cmdSelftest() int {
+	w, err := load(verifDir+"/semtest", []string{"."}, verifDir+"/stubs")
+	if err != nil {
+		fmt.Println("selftest: load failed:", err)
+		return 2
+	}
+	for _, e := range w.contractErrors() {
+		fmt.Println("CONTRACT ERROR:", e)
+	}
+	var units []*UnitResult
+	for _, fn := range w.funcs {
+		units = append(units, w.verifyUnit(fn, []string{"SEM"}))
+	}
+	solveAll(units, nil, 10, false, os.Getenv("GOVC_DUMP"))
+	bad := 0
+	nOK, nBad := 0, 0
+	for _, u := range units {
+		name := u.Fn.Name()
+		if u.Fn.Parent() != nil {
+			name = u.Fn.Parent().Name() // closures count with their parent
+		}
+		expectFail := strings.HasPrefix(name, "bad") || name == "leaky"
+		if !strings.HasPrefix(name, "ok") && !expectFail {
+			continue
+		}
+		failed, refuted := 0, 0
+		var fl []string
+		for _, o := range u.Obs {
+			if o.Status != "unsat" {
+				failed++
+				fl = append(fl, fmt.Sprintf("%s[%s]", o.name, o.Status))
+				if o.Status == "sat" {
+					refuted++
+				}
+			}
+		}
+		for _, se := range u.SpecErrs {
+			fmt.Printf("SELFTEST spec error in %s: %s\n", u.Key, se)
+			bad++
+		}
+		if u.Fn.Parent() != nil {
+			// a closure of a bad* function need not fail itself
+			if !expectFail && failed > 0 {
+				fmt.Printf("SELFTEST FAIL: %s should verify but %v\n", u.Key, fl)
+				bad++
+			}
+			continue
+		}
+		if expectFail {
+			nBad++
+			// the failure may sit in the function or in one of its closures' call-site obligations
+			if failed == 0 {
+				fmt.Printf("SELFTEST FAIL: %s should be refuted but all %d obligations were discharged\n", u.Key, len(u.Obs))
+				bad++
+			}
+		} else {
+			nOK++
+			if failed > 0 {
+				fmt.Printf("SELFTEST FAIL: %s should verify but %v\n", u.Key, fl)
+				bad++
+			}
+		}
+	}
+	fmt.Printf("selftest: %d ok-functions, %d bad-functions, %d mismatches\n", nOK, nBad, bad)
+	if bad > 0 {
+		return 1
+	}
+	return 0
+}
